@@ -975,7 +975,9 @@ Inductive reachable (lost : bool) : state -> Prop :=
 | r_init : forall regs, forallb (fun eh => fresh_h (snd eh)) regs = true -> reachable lost (init_state regs)
 | r_env : forall s acts, reachable lost s -> forallb fresh_action acts = true ->
                          reachable lost (exec_actions None acts s)
-| r_step : forall s s', reachable lost s -> step lost s = Some s' -> reachable lost s'.
+| r_step : forall s s', reachable lost s -> step lost s = Some s' -> reachable lost s'
+(* add_handler between two loop slices (a mode that starts registers the handlers of its config players) *)
+| r_add : forall s ev h, reachable lost s -> fresh_h h = true -> reachable lost (upd_reg s (reg_add ev h (reg s))).
 
 Lemma insert_h_fresh h l : fresh_h h = true -> forallb fresh_h l = true -> forallb fresh_h (insert_h h l) = true.
 Proof.
@@ -1029,6 +1031,8 @@ Proof.
   - apply init_inv; auto.
   - apply exec_actions_inv; auto using own_ok_none.
   - eapply step_inv; eauto.
+  - destruct IHreachable as [I1 I2 I3 I4 I5 I6 I7 I8 I9 I10 I11]. constructor; sst; auto.
+    apply reg_add_fresh; auto.
 Qed.
 
 (* every state produced by the harness-style driver is reachable *)
